@@ -570,6 +570,10 @@ def _ops():
         t.horz_banding = rnd.choice([True, False])
         t.columns[0].width = rnd.choice([0, 914400])
         t.rows[0].height = rnd.choice([0, 370840])
+        # text (several paragraphs, breaks) in cells other than the origin of the ranges merged below
+        for _ in range(rnd.randrange(0, 4)):
+            rr, cc = rnd.randrange(len(t.rows)), rnd.randrange(len(t.columns))
+            t.cell(rr, cc).text = rnd.choice(["x", "two\nparagraphs", "a\vb", ""])
         if len(t.rows) > 1 and len(t.columns) > 1:
             t.cell(0, 0).merge(t.cell(1, 1))
             if rnd.random() < 0.5:
@@ -578,6 +582,16 @@ def _ops():
                 t.cell(1, 1).merge(t.cell(2, 2))  # may overlap a merged range: documented ValueError
             except ValueError:
                 pass
+            try:
+                r1, r2 = sorted(rnd.sample(range(len(t.rows)), 2)) if len(t.rows) > 2 else (0, 1)
+                c1, c2 = sorted(rnd.sample(range(len(t.columns)), 2))
+                a, b = (t.cell(r1, c1), t.cell(r2, c2)) if rnd.random() < 0.5 else (t.cell(r2, c2), t.cell(r1, c1))
+                a.merge(b)
+            except ValueError:
+                pass
+        elif len(t.columns) > 1:
+            t.cell(0, len(t.columns) - 1).text = "last"
+            t.cell(0, 0).merge(t.cell(0, len(t.columns) - 1))
 
     def cat_data(rnd):
         d = CategoryChartData(number_format=rnd.choice(["General", "0.0"]))
